@@ -67,12 +67,14 @@ def g4_tlc(ck, run, workers):
 
 def pc_tlc(ck, run, workers):
     code, maxlen = run
+    spec = PC_SPEC
+    end = '"E"'
     cfg = write_cfg(os.path.join(ck.tmp, "c19_pc_%s.cfg" % code),
-                    constants={"Code": "<- " + code, "END": '"E"', "MaxLen": maxlen, "ByteLen": 8},
+                    constants={"Code": "<- " + code, "END": end, "MaxLen": maxlen, "ByteLen": 8},
                     invariants=["PrefixDecodeOK", "NoInvalid", "EndsWithEOFB", "WholeBytes"], properties=["Progress"],
                     constraints=["EmitTerminal"])
     emit = os.path.join(ck.tmp, "c19_pc_%s.ndjson" % code)
-    return run_tlc(PC_SPEC, cfg, emit=emit, coverage=(ck.tier == "quick"), timeout=7200, workers=workers), emit
+    return run_tlc(spec, cfg, emit=emit, coverage=(ck.tier == "quick"), timeout=7200, workers=workers), emit
 
 
 # ------------------------------------------------------------------------------------------ direction A
@@ -279,6 +281,7 @@ def pc_replay(ck, run, res, emit, counts, stats):
     if res.actions:
         require_coverage(res, ["AWalk", "AAccept", "AByteSkip", "AEndOfBlock"])
     table = PC_CODES[code]
+    end = "E"
     n = 0
     with open(emit) as f:
         for line in f:
@@ -286,7 +289,7 @@ def pc_replay(ck, run, res, emit, counts, stats):
             n += 1
             bits = r["bits"]
             data = bytes(int("".join(map(str, bits[i:i + 8])), 2) for i in range(0, len(bits), 8))
-            got, err = g4run.generic_prefix_decode(table, "E", r["msg"], r["align"], data)
+            got, err = g4run.generic_prefix_decode(table, end, r["msg"], r["align"], data)
             want = [it["s"] for it in r["msg"]]
             ck.case(1, ("pc", code, json.dumps(r["msg"]), r["align"]) if r["msg"] else None)
             if err is not None or got != want:
@@ -557,6 +560,62 @@ def validate_b(ck, counts, stats, traces, events, fast):
         ck.sample({"trace": t["origin"], "width": t["w"], "rows": len(t["rows"]), "events": len(t["ev"]), "first_events": t["ev"][:3]}, limit=16)
 
 
+def table_probe(ck, counts, stats, rng):
+    """pdfminer's code tables against the reference tables of the specification (T4Codes.tla).  A run value or mode
+    that the tries lack, or map to another word, is shown to break the property by decoding a conforming stream (written
+    with the reference words) that uses it."""
+    diffs = t6.table_diffs()
+    stats["table_differences"] = [[n, k, str(v), w, g] for n, k, v, w, g in diffs]
+    ck.case(len(t6.tables()["white"]) + len(t6.tables()["black"]) + len(t6.tables()["mode"]), ("tables",))
+    for name, kind, v, word, got in diffs:
+        if kind == "extra-code":
+            ck.note("pdfminer's %s table accepts a word the standard does not assign: %r -> %r (tolerance, not judged)" % (name, got, v))
+            continue
+        if name == "mode":
+            demo = None
+            if v == "e":
+                rows, w = [[1, 0, 0, 1, 1]], 5
+                demo = (rows, w, t6.encode(rows, w, t6.STRATEGIES["canon"](rng)))
+            for _ in range(4000):
+                if demo:
+                    break
+                w = rng.randint(4, 12)
+                rows = [[rng.randint(0, 1) for _ in range(w)] for _ in range(2)]
+                syms = t6.encode(rows, w, t6.STRATEGIES["rand" if v == "h" else "canon"](rng))
+                want = ["p"] if v == "p" else (["v", v] if isinstance(v, int) else None)
+                if any((s[0] == "h" if v == "h" else s == want) for row in syms for s in row):
+                    demo = (rows, w, syms)
+            if not demo:
+                raise MachineryError("no demonstration image found for mode %r" % (v,))
+            rows, w, syms = demo
+            what = "mode %r" % (v,)
+        else:
+            tail = 8
+            if name == "white":
+                rows = [[1] * v + [0] * tail, [1] * (v + tail)]
+            else:
+                rows = [[0] * v + [1] * tail, [1] * (v + tail)]
+            w = v + tail
+            syms = t6.encode(rows, w, t6.STRATEGIES["honly"](rng))
+            what = "a %s run of %d pixels (codes %r)" % (name, v, t6.run_codes(v))
+        key = "table:%s:%s:%s" % (kind, name, v)
+        ok = True
+        seen = ""
+        for align, bi in COMBOS[:2]:
+            out, err = g4run.decode(t6.assemble([t6.bits_of_row(r) for r in syms], align), w, align, bi, omit_false=True)
+            if err is not None or t6.unpack(out, w, len(rows), bi) != rows:
+                ok = False
+                seen = ("the decoder raises " + err) if err else "the rows differ"
+        if ok:
+            ck.note("pdfminer's %s table differs from T.4 for %r (%s: reference %s, tries %r) but the stream using it decodes"
+                    % (name, v, kind, word, got))
+            continue
+        ck.violation(key, "pdfminer's %s code table: %s for %r (T.4/T.6 word %s, tries hold %r); a conforming stream with %s does not "
+                     "decode to its rows: %s (width %d)" % (name.upper(), kind, v, word, got or "nothing", what, seen, w),
+                     {"kind": "image", "w": w, "rows": rows if w <= 400 else None, "syms": syms, "align": False, "blackis1": False,
+                      "origin": "table probe " + key, "table_probe": [name, str(v)]})
+
+
 def probes(ck, counts, stats):
     """spellings of the parameter dictionary (ISO 32000-1 table 11 defaults) and stream endings"""
     rng = random.Random(ck.seed + 1)
@@ -596,9 +655,10 @@ def run(ck):
                "bit-level message on the real BitParser.  Non-trivial = the coding has more than one symbol or a non-white reference "
                "row / the message is not empty.  B: one evaluation = one recorded mode step or row of a real-scale decode; distinct = "
                "distinct (bitmap, strategy, parameters).")
-    ck.assumptions = ["the individual code words of pdfminer's WHITE/BLACK/MODE tables are trusted data (the writer inverts the same "
-                      "tables); they are checked structurally: prefix-free, Kraft, exactly the run values 0..63 and 64..2560, extended "
-                      "make-up codes common to both colours, and the T.4/T.6 anchor words listed in harness/realise/t6.py",
+    ck.assumptions = ["the writer's code words are the constants of specs/ccitt/T4Codes.tla (T.4 tables 2, 3a, 3b and T.6 table 1); that "
+                      "reference is checked before use (prefix-free, complete up to the EOL prefix 00000000, run values 0..63 and "
+                      "64..2560, extended make-up codes common to both colours, 34 anchor words) and a failure there is a machinery "
+                      "failure; pdfminer's tries are compared with it and every difference is demonstrated on a conforming stream",
                       "with EncodedByteAlign the writer puts the fill bits after every row, the last one included (the reading of ISO "
                       "32000-1 table 11 under which the decoder works; see notes/C19.md)",
                       "uncompressed mode (a T.6 extension) is outside the property"]
@@ -615,6 +675,7 @@ def run(ck):
         wk = max(2, ncpu // 3)
         f_g4 = [ex.submit(g4_tlc, ck, r, wk) for r in runs]
         f_pc = [ex.submit(pc_tlc, ck, r, max(2, ncpu // 4)) for r in pcs]
+        table_probe(ck, counts, stats, rng)
         images_replay(ck, counts, stats, rng)           # real code only; runs while TLC works
         probes(ck, counts, stats)
         traces, events = record_b(ck, counts, stats)
@@ -648,6 +709,9 @@ def replay(path):
     case = unjson(doc["case"])
     kind = case.get("kind")
     bad = False
+    if kind == "image" and case.get("rows") is None and case.get("table_probe") and case["table_probe"][0] in ("white", "black"):
+        name, v = case["table_probe"][0], int(case["table_probe"][1])
+        case["rows"] = [([1] * v + [0] * 8) if name == "white" else ([0] * v + [1] * 8), [1] * (v + 8)]
     if kind == "image" and isinstance(case.get("rows"), list):
         rows, w = case["rows"], case["w"]
         syms = case.get("syms") or t6.encode(rows, w, t6.STRATEGIES["canon"](None))
